@@ -118,23 +118,108 @@ impl<'a> BTreeCursor<'a> {
 //@end
 }
 
+// ================================================================== the descent as a relation on the page store
+/// `pos` is the position both searches return: everything before it is below the key, nothing from it on is
+pub open spec fn is_lb(ks: Seq<Seq<u8>>, key: Seq<u8>, pos: int) -> bool {
+    0 <= pos <= ks.len() && (forall|j: int| 0 <= j < pos ==> lex_lt(#[trigger] ks[j], key)) && (forall|j: int| pos <= j < ks.len() ==> lex_le(key, #[trigger] ks[j]))
+}
+pub proof fn lemma_lb_unique(ks: Seq<Seq<u8>>, key: Seq<u8>, p: int, q: int)
+    requires is_lb(ks, key, p), is_lb(ks, key, q),
+    ensures p == q,
+{
+    if p < q { assert(lex_le(key, ks[p])); assert(lex_lt(ks[p], key)); }
+    if q < p { assert(lex_le(key, ks[q])); assert(lex_lt(ks[q], key)); }
+}
+pub open spec fn lb_pos(ks: Seq<Seq<u8>>, key: Seq<u8>) -> int { choose|pos: int| is_lb(ks, key, pos) }
+pub open spec fn leaf_keys(b: Seq<u8>) -> Seq<Seq<u8>> { Seq::new(pg_count(b) as nat, |i: int| leaf_cells(b)[i].0) }
+/// following internal_child_for_key from page `cur` for at most `h` levels ends in leaf `l`
+pub open spec fn reaches(p: &Pager, cur: u64, key: Seq<u8>, l: u64, h: nat) -> bool
+    decreases h
+{
+    if pg_kind_ok(pg(p, cur)) && pg(p, cur)[4] == 0 { cur == l }
+    else if h == 0 { false }
+    else { pg_kind_ok(pg(p, cur)) && pg(p, cur)[4] == 1 && (exists|pos: int| is_lb(int_seps(pg(p, cur)), key, pos))
+           && reaches(p, int_child(pg(p, cur), lb_pos(int_seps(pg(p, cur)), key)), key, l, (h - 1) as nat) }
+}
+/// one step of the descent, in the direction the loops take it
+pub proof fn lemma_reaches_step(p: &Pager, cur: u64, key: Seq<u8>, pos: int, l: u64, h: nat)
+    requires pg_kind_ok(pg(p, cur)), pg(p, cur)[4] == 1, is_lb(int_seps(pg(p, cur)), key, pos), reaches(p, int_child(pg(p, cur), pos), key, l, h),
+    ensures reaches(p, cur, key, l, h + 1),
+{
+    lemma_lb_unique(int_seps(pg(p, cur)), key, pos, lb_pos(int_seps(pg(p, cur)), key));
+}
+/// the descent is a function of the store and the key
+pub proof fn lemma_reaches_unique(p: &Pager, cur: u64, key: Seq<u8>, l1: u64, h1: nat, l2: u64, h2: nat)
+    requires reaches(p, cur, key, l1, h1), reaches(p, cur, key, l2, h2),
+    ensures l1 == l2,
+    decreases h1
+{
+    if pg_kind_ok(pg(p, cur)) && pg(p, cur)[4] == 0 { } else {
+        lemma_reaches_unique(p, int_child(pg(p, cur), lb_pos(int_seps(pg(p, cur)), key)), key, l1, (h1 - 1) as nat, l2, (h2 - 1) as nat);
+    }
+}
+/// a change confined to one leaf page (which stays a leaf) does not redirect any descent
+pub proof fn lemma_reaches_frame(o: &Pager, n: &Pager, cur: u64, key: Seq<u8>, l: u64, h: nat, changed: u64)
+    requires reaches(o, cur, key, l, h), only_changed(o, n, changed),
+        pg_kind_ok(pg(o, changed)) && pg(o, changed)[4] == 0, pg_kind_ok(pg(n, changed)) && pg(n, changed)[4] == 0,
+    ensures reaches(n, cur, key, l, h),
+    decreases h
+{
+    if pg_kind_ok(pg(o, cur)) && pg(o, cur)[4] == 0 {
+        if cur != changed { assert(pg(n, cur) == pg(o, cur)); }
+    } else {
+        assert(cur != changed);
+        assert(pg(n, cur) == pg(o, cur));
+        lemma_reaches_frame(o, n, int_child(pg(o, cur), lb_pos(int_seps(pg(o, cur)), key)), key, l, (h - 1) as nat, changed);
+    }
+}
+
 impl BTree {
 // C26.tree.cursor_lower_bound — the cursor a lookup/scan starts from is a faithful copy of a well-formed
 // leaf of the store, and it stands past the end of its leaf only when the leaf chain has ended (empty and
-// exhausted leaves are stepped over).  (WHICH leaf and slot - that no entry >= target lies left of it and
-// the entry under it is >= target - needs the cross-page ordering invariant and is not decided here.)
-// Termination not proved.
+// exhausted leaves are stepped over).  WHICH leaf and slot: the leaf that the descent by
+// internal_child_for_key ends in (relation `reaches`) and the lower-bound slot of the key there, whenever
+// that slot holds an entry.  (That no entry >= target lies LEFT of that leaf needs the cross-page ordering
+// invariant and is not decided here.)  Termination not proved.
 //@extract nervusdb-storage/src/index/btree.rs BTree::cursor_lower_bound ret r
 //@attr #[verifier::exec_allows_no_decreases_clause]
 //@| requires tree_pages_ok(pager),
 //@| ensures r is Ok ==> r->Ok_0.ok() && r->Ok_0.pager == pager
 //@|     && (r->Ok_0.slot >= pg_count(r->Ok_0.buf@) ==> from_le64(r->Ok_0.buf@.subrange(16, 24)) == 0),
+//@|     // WHICH leaf and slot: the leaf the descent by internal_child_for_key ends in and the lower-bound slot of
+//@|     // the key there, whenever that slot holds an entry (otherwise the walk to the right above applies)
+//@|     r is Ok ==> exists|l0: u64, h: nat| #[trigger] reaches(pager, self.root.0, key@, l0, h) && leaf_wf(pg(pager, l0))
+//@|         && (lb_pos(leaf_keys(pg(pager, l0)), key@) < pg_count(pg(pager, l0)) ==> r->Ok_0.leaf.0 == l0 && r->Ok_0.slot == lb_pos(leaf_keys(pg(pager, l0)), key@)),
+//@proof before 1 "let mut cur = self.root;" raw
+//@| let ghost mut depth: nat = 0;
 //@loop 1
 //@| invariant tree_pages_ok(pager),
+//@|     forall|l: u64, h: nat| reaches(pager, cur.0, key@, l, h) ==> #[trigger] reaches(pager, self.root.0, key@, l, h + depth),
+//@proof after 1 "let (child, _) = page.internal_child_for_key(key)?;" raw
+//@| proof {
+//@|     let b = pg(pager, cur.0);
+//@|     let pos = choose|pos: int| 0 <= pos <= pg_count(b) && child.0 == int_child(b, pos) && is_lb(int_seps(b), key@, pos);
+//@|     assert forall|l: u64, h: nat| reaches(pager, child.0, key@, l, h) implies #[trigger] reaches(pager, self.root.0, key@, l, h + (depth + 1)) by {
+//@|         lemma_reaches_step(pager, cur.0, key@, pos, l, h);
+//@|         assert(reaches(pager, self.root.0, key@, l, (h + 1) + depth));
+//@|     }
+//@|     depth = depth + 1;
+//@| }
+//@proof after 1 "let mut slot = page.leaf_lower_bound(key)? as u16;" raw
+//@| let ghost l0 = cur.0;
+//@| let ghost slot0 = slot;
+//@| proof {
+//@|     assert(reaches(pager, cur.0, key@, cur.0, 0nat));
+//@|     assert(reaches(pager, self.root.0, key@, l0, 0nat + depth));
+//@|     assert(is_lb(leaf_keys(pg(pager, l0)), key@, slot as int));
+//@|     lemma_lb_unique(leaf_keys(pg(pager, l0)), key@, slot as int, lb_pos(leaf_keys(pg(pager, l0)), key@));
+//@| }
 //@loop? 2
 //@| invariant tree_pages_ok(pager), leaf_buf@ == pg(pager, leaf_id.0), pg_kind_ok(leaf_buf@), leaf_buf@[4] == 0, leaf_wf(leaf_buf@), keys_sorted(leaf_cells(leaf_buf@)),
 //@|     leaf_id.0 != 0, slot <= pg_count(leaf_buf@),
+//@|     (leaf_id.0 == l0 && slot == slot0) || slot0 as int >= pg_count(pg(pager, l0)),
 //@| ensures slot < pg_count(leaf_buf@) || from_le64(leaf_buf@.subrange(16, 24)) == 0,
+//@|     (leaf_id.0 == l0 && slot == slot0) || slot0 as int >= pg_count(pg(pager, l0)),
 //@end
 }
 
@@ -145,6 +230,7 @@ pub open spec fn inserted_at(o: &Pager, n: &Pager, l: u64, i: int, key: Seq<u8>,
     && (forall|j: int| 0 <= j < i ==> lex_lt(#[trigger] leaf_cells(pg(o, l))[j].0, key))
     && (forall|j: int| i <= j < pg_count(pg(o, l)) ==> lex_le(key, #[trigger] leaf_cells(pg(o, l))[j].0))
     && leaf_wf(pg(n, l)) && leaf_cells(pg(n, l)) == leaf_cells(pg(o, l)).insert(i, (key, payload)) && only_changed(o, n, l)
+    && pg(n, l).subrange(16, 24) == pg(o, l).subrange(16, 24)
 }
 // ================================================================== leaf split: sizes, cut point, rebuild
 /// bytes one cell with a key of `klen` bytes takes in a page: slot, key length varint, key, payload / child id
@@ -376,23 +462,25 @@ impl<'a> Page<'a> {
 pub open spec fn sib(b: Seq<u8>) -> u64 { from_le64(b.subrange(16, 24)) }
 /// leaf `l` was full and has been split around the new entry: the entry went in front of all equal keys,
 /// the run was cut in two, the left part stays in `l`, the right part went to page `r`, which is chained in
-/// between `l` and l's old right sibling, `sep` is the first key of `r`, and no other page changed.
-/// (r != l: that the allocator returns a page other than a live one is C18.)
+/// between `l` and l's old right sibling, `sep` is the first key of `r`, which was a free page, and no other
+/// allocated page changed.
 pub open spec fn leaf_split_ok(o: &Pager, n: &Pager, l: u64, r: u64, i: int, key: Seq<u8>, payload: u64, sep: Seq<u8>) -> bool {
-    leaf_wf(pg(o, l)) && 0 <= i <= pg_count(pg(o, l))
+    leaf_wf(pg(o, l)) && 0 <= i <= pg_count(pg(o, l)) && live(o, l) && !live(o, r)
     && (forall|j: int| 0 <= j < i ==> lex_lt(#[trigger] leaf_cells(pg(o, l))[j].0, key))
     && (forall|j: int| i <= j < pg_count(pg(o, l)) ==> lex_le(key, #[trigger] leaf_cells(pg(o, l))[j].0))
-    && (r != l ==> leaf_wf(pg(n, l)) && leaf_wf(pg(n, r))
-        && leaf_cells(pg(n, l)) + leaf_cells(pg(n, r)) == leaf_cells(pg(o, l)).insert(i, (key, payload))
-        && keys_sorted(leaf_cells(pg(n, l))) && keys_sorted(leaf_cells(pg(n, r)))
-        && leaf_cells(pg(n, r)).len() >= 1 && sep == leaf_cells(pg(n, r))[0].0
-        && sib(pg(n, l)) == r && sib(pg(n, r)) == sib(pg(o, l)))
-    && (forall|x: u64| x != l && x != r ==> #[trigger] pg(n, x) == pg(o, x))
+    && leaf_wf(pg(n, l)) && leaf_wf(pg(n, r))
+    && leaf_cells(pg(n, l)) + leaf_cells(pg(n, r)) == leaf_cells(pg(o, l)).insert(i, (key, payload))
+    && keys_sorted(leaf_cells(pg(n, l))) && keys_sorted(leaf_cells(pg(n, r)))
+    && leaf_cells(pg(n, r)).len() >= 1 && sep == leaf_cells(pg(n, r))[0].0
+    && sib(pg(n, l)) == r && sib(pg(n, r)) == sib(pg(o, l))
+    && (forall|x: u64| live(o, x) && x != l ==> #[trigger] pg(n, x) == pg(o, x))
 }
-/// stands for what BTree::insert_into_parent does to the pages above the split leaf: NOT decided
-pub uninterp spec fn parent_updated(n: &Pager) -> bool;
-pub open spec fn at_most_two_changed(o: &Pager, n: &Pager) -> bool {
-    forall|x: u64, y: u64, z: u64| pg(n, x) != pg(o, x) && pg(n, y) != pg(o, y) && pg(n, z) != pg(o, z) ==> x == y || y == z || x == z
+/// leaf `l` has no room for one more entry with this key
+pub open spec fn leaf_full(o: &Pager, l: u64, key: Seq<u8>) -> bool {
+    leaf_wf(pg(o, l)) && !(key.len() <= u32::MAX && 24 + 2 * pg_count(pg(o, l)) + 2 + vlen(key.len() as u32) + key.len() + 8 <= pg_begin(pg(o, l)))
+}
+pub open spec fn at_most_one_changed(o: &Pager, n: &Pager) -> bool {
+    forall|x: u64, y: u64| live(o, x) && live(o, y) && pg(n, x) != pg(o, x) && pg(n, y) != pg(o, y) ==> x == y
 }
 
 pub proof fn lemma_leaf_cells_sz(b: Seq<u8>, i: int)
@@ -439,7 +527,7 @@ pub fn v_partition_point_lt(entries: &Vec<(Vec<u8>, u64)>, key: &[u8]) -> (r: us
 #[verifier::external_body]
 pub fn v_entries_to_vec(entries: &Vec<(Vec<u8>, u64)>, a: usize, b: usize) -> (r: Vec<(Vec<u8>, u64)>)
     requires a <= b <= entries@.len(),
-    ensures eview(r@) == eview(entries@).subrange(a as int, b as int),
+    ensures r@.len() == b - a, eview(r@) == eview(entries@).subrange(a as int, b as int),
 { unimplemented!() }
 //@trusted v_bytes_clone: Vec<u8>::clone yields equal bytes (std)
 #[verifier::external_body]
@@ -447,41 +535,323 @@ pub fn v_bytes_clone(v: &Vec<u8>) -> (r: Vec<u8>)
     ensures r@ == v@,
 { v.clone() }
 
-impl BTree {
-    //@trusted insert_into_parent: BTree::insert_into_parent (separator into the parent, internal split, new root) uses iterator adapters (zip/skip/collect) that Verus cannot ingest; it is replaced by this stub, which says nothing about what happens to the pages above the leaf - that part of a split is not decided
-    #[verifier::external_body]
-    pub fn insert_into_parent(&mut self, pager: &mut Pager, path: &mut Vec<PathEntry>, left_id: PageId, sep_key: Vec<u8>, right_id: PageId) -> (r: Result<()>)
-        ensures parent_updated(final(pager))
-    { unimplemented!() }
+/// leftmost child followed by the right child of every cell
+pub open spec fn all_children(b: Seq<u8>) -> Seq<u64> { Seq::new((pg_count(b) + 1) as nat, |i: int| int_child(b, i)) }
+pub open spec fn kseq(v: Seq<Vec<u8>>) -> Seq<Seq<u8>> { Seq::new(v.len(), |i: int| v[i]@) }
+pub open spec fn cseq(v: Seq<PageId>) -> Seq<u64> { Seq::new(v.len(), |i: int| v[i].0) }
+pub open spec fn ksv(s: Seq<Seq<u8>>) -> Seq<(Seq<u8>, u64)> { Seq::new(s.len(), |i: int| (s[i], 0u64)) }
+pub open spec fn new_root_ok(o: &Pager, n: &Pager, root: u64, left: u64, sep: Seq<u8>, right: u64) -> bool {
+    !live(o, root) && internal_wf(pg(n, root)) && int_seps(pg(n, root)) == seq![sep] && all_children(pg(n, root)) == seq![left, right]
+    && (forall|x: u64| live(o, x) ==> #[trigger] pg(n, x) == pg(o, x))
+}
+pub open spec fn parent_insert_ok(o: &Pager, n: &Pager, p: u64, pos: int, sep: Seq<u8>, right: u64) -> bool {
+    internal_wf(pg(o, p)) && 0 <= pos <= pg_count(pg(o, p)) && internal_wf(pg(n, p))
+    && int_seps(pg(n, p)) == int_seps(pg(o, p)).insert(pos, sep)
+    && all_children(pg(n, p)) == all_children(pg(o, p)).insert(pos + 1, right)
+    && (forall|x: u64| x != p ==> #[trigger] pg(n, x) == pg(o, x))
+}
+/// the parent has no room for one more separator of this size
+pub open spec fn internal_full(o: &Pager, p: u64, sep: Seq<u8>) -> bool {
+    internal_wf(pg(o, p)) && !(sep.len() <= u32::MAX && 32 + 2 * pg_count(pg(o, p)) + 2 + 8 + vlen(sep.len() as u32) + sep.len() <= pg_begin(pg(o, p)))
+}
+/// internal page `p` was full and has been split around the new separator: see C26.tree.insert_into_parent
+pub open spec fn internal_split_ok(o: &Pager, n: &Pager, p: u64, r2: u64, pos: int, sep: Seq<u8>, right: u64, promote: Seq<u8>) -> bool {
+    internal_wf(pg(o, p)) && 0 <= pos <= pg_count(pg(o, p)) && live(o, p) && !live(o, r2)
+    && internal_wf(pg(n, p)) && internal_wf(pg(n, r2))
+    && int_seps(pg(n, p)).push(promote) + int_seps(pg(n, r2)) == int_seps(pg(o, p)).insert(pos, sep)
+    && all_children(pg(n, p)) + all_children(pg(n, r2)) == all_children(pg(o, p)).insert(pos + 1, right)
+    && (forall|x: u64| live(o, x) && x != p ==> #[trigger] pg(n, x) == pg(o, x))
+}
+/// the pages form a tree: some height function decreases along every child link of every internal page
+pub open spec fn ranked(p: &Pager, rank: spec_fn(u64) -> nat) -> bool {
+    forall|a: u64, i: int| pg_kind_ok(pg(p, a)) && pg(p, a)[4] == 1 && 0 <= i <= pg_count(pg(p, a)) ==> rank(#[trigger] int_child(pg(p, a), i)) < rank(a)
+}
+/// what insert_into_parent needs to know about the recorded descent: every entry names an allocated,
+/// well-formed internal page and a child position inside it, and no page occurs twice
+pub open spec fn path_ok(p: &Pager, path: Seq<PathEntry>) -> bool {
+    (forall|k: int| 0 <= k < path.len() ==> live(p, (#[trigger] path[k]).page.0) && internal_wf(pg(p, path[k].page.0)) && path[k].child_pos <= pg_count(pg(p, path[k].page.0)))
+    && (forall|j: int, k: int| 0 <= j < k < path.len() ==> (#[trigger] path[j]).page.0 != (#[trigger] path[k]).page.0)
+    // each entry is the child its predecessor recorded
+    && (forall|k: int| 0 <= k < path.len() - 1 ==> int_child(pg(p, (#[trigger] path[k]).page.0), path[k].child_pos as int) == path[k + 1].page.0)
+}
+/// `left` is the page the recorded descent went to below its last entry (the root when nothing was recorded)
+pub open spec fn path_leads_to(p: &Pager, path: Seq<PathEntry>, root: u64, left: u64) -> bool {
+    if path.len() == 0 { left == root } else { path[0].page.0 == root && int_child(pg(p, path.last().page.0), path.last().child_pos as int) == left }
+}
+/// a recorded descent stays valid when none of its pages changes or is freed
+pub proof fn lemma_path_frame(o: &Pager, n: &Pager, path: Seq<PathEntry>)
+    requires path_ok(o, path), forall|k: int| 0 <= k < path.len() ==> pg(n, (#[trigger] path[k]).page.0) == pg(o, path[k].page.0) && live(n, path[k].page.0),
+    ensures path_ok(n, path),
+{
+    assert forall|k: int| 0 <= k < path.len() - 1 implies int_child(pg(n, (#[trigger] path[k]).page.0), path[k].child_pos as int) == path[k + 1].page.0 by {
+        assert(pg(n, path[k].page.0) == pg(o, path[k].page.0));
+    }
+}
+/// C26.tree.insert.split_leaf (the abstract argument): two well-formed leaves holding the two parts of the old run
+/// with the new entry at its lower-bound position are a correct leaf split
+pub proof fn lemma_leaf_split(o: &Pager, n: &Pager, l: u64, rr: u64, pos: int, key: Seq<u8>, payload: u64, sep: Seq<u8>, mid: int)
+    requires leaf_wf(pg(o, l)), keys_sorted(leaf_cells(pg(o, l))), live(o, l), !live(o, rr), 0 <= pos <= pg_count(pg(o, l)), key.len() <= 0x7fff_ffff_ffff_ffff,
+        forall|j: int| 0 <= j < pos ==> lex_lt(#[trigger] leaf_cells(pg(o, l))[j].0, key),
+        forall|j: int| pos <= j < pg_count(pg(o, l)) ==> lex_le(key, #[trigger] leaf_cells(pg(o, l))[j].0),
+        0 <= mid < pg_count(pg(o, l)) + 1, leaf_wf(pg(n, l)), leaf_wf(pg(n, rr)),
+        leaf_cells(pg(n, l)) == leaf_cells(pg(o, l)).insert(pos, (key, payload)).take(mid),
+        leaf_cells(pg(n, rr)) == leaf_cells(pg(o, l)).insert(pos, (key, payload)).skip(mid),
+        sib(pg(n, l)) == rr, sib(pg(n, rr)) == sib(pg(o, l)), sep == leaf_cells(pg(o, l)).insert(pos, (key, payload))[mid].0,
+        forall|x: u64| live(o, x) && x != l ==> #[trigger] pg(n, x) == pg(o, x),
+    ensures leaf_split_ok(o, n, l, rr, pos, key, payload, sep), sep.len() <= 0x7fff_ffff_ffff_ffff,
+{
+    let cells0 = leaf_cells(pg(o, l));
+    let cells1 = cells0.insert(pos, (key, payload));
+    lemma_insert_at_lower_bound(cells0, pos, key, payload);
+    assert(cells1.take(mid) + cells1.skip(mid) =~= cells1);
+    assert(keys_sorted(cells1.take(mid))) by {
+        assert forall|a: int, b: int| 0 <= a < b < mid implies lex_le(#[trigger] cells1.take(mid)[a].0, #[trigger] cells1.take(mid)[b].0) by { assert(lex_le(cells1[a].0, cells1[b].0)); }
+    }
+    assert(keys_sorted(cells1.skip(mid))) by {
+        assert forall|a: int, b: int| 0 <= a < b < cells1.len() - mid implies lex_le(#[trigger] cells1.skip(mid)[a].0, #[trigger] cells1.skip(mid)[b].0) by { assert(lex_le(cells1[mid + a].0, cells1[mid + b].0)); }
+    }
+    assert(cells1.skip(mid)[0] == cells1[mid]);
+    if mid != pos {
+        let j: int = if mid < pos { mid } else { mid - 1 };
+        assert(lc_ok(pg(o, l), pg_slot(pg(o, l), j)));
+        axiom_vdec_bounds(pg(o, l).skip(pg_slot(pg(o, l), j)));
+        assert(cells0[j].0 == lc_key(pg(o, l), pg_slot(pg(o, l), j)));
+        assert(cells1[mid] == cells0[j]);
+    }
+}
+/// C26.tree.insert_into_parent (the abstract argument): two well-formed internal pages holding the separators
+/// and children on either side of the promoted separator are a correct internal split
+pub proof fn lemma_internal_split(o: &Pager, n: &Pager, pp: u64, r2: u64, pos: int, sep: Seq<u8>, right: u64, promote: Seq<u8>, mid: int)
+    requires internal_wf(pg(o, pp)), live(o, pp), !live(o, r2), 0 <= pos <= pg_count(pg(o, pp)), sep.len() <= 0x7fff_ffff_ffff_ffff,
+        0 <= mid < pg_count(pg(o, pp)) + 1, internal_wf(pg(n, pp)), internal_wf(pg(n, r2)),
+        int_seps(pg(n, pp)) == int_seps(pg(o, pp)).insert(pos, sep).take(mid),
+        int_seps(pg(n, r2)) == int_seps(pg(o, pp)).insert(pos, sep).skip(mid + 1),
+        promote == int_seps(pg(o, pp)).insert(pos, sep)[mid],
+        all_children(pg(n, pp)) == all_children(pg(o, pp)).insert(pos + 1, right).take(mid + 1),
+        all_children(pg(n, r2)) == all_children(pg(o, pp)).insert(pos + 1, right).skip(mid + 1),
+        forall|x: u64| live(o, x) && x != pp ==> #[trigger] pg(n, x) == pg(o, x),
+    ensures internal_split_ok(o, n, pp, r2, pos, sep, right, promote), promote.len() <= 0x7fff_ffff_ffff_ffff,
+{
+    let b0 = pg(o, pp);
+    let ks1 = int_seps(b0).insert(pos, sep);
+    let cs1 = all_children(b0).insert(pos + 1, right);
+    assert(ks1.take(mid).push(promote) + ks1.skip(mid + 1) =~= ks1);
+    assert(cs1.take(mid + 1) + cs1.skip(mid + 1) =~= cs1);
+    if mid != pos {
+        let j: int = if mid < pos { mid } else { mid - 1 };
+        assert(ic_ok(b0, pg_slot(b0, j)));
+        assert(ks1[mid] == int_seps(b0)[j]);
+        axiom_vdec_bounds(b0.skip(pg_slot(b0, j) + 8));
+        assert(int_seps(b0)[j] == ic_key(b0, pg_slot(b0, j)));
+    }
+}
+pub proof fn lemma_all_children(b: Seq<u8>)
+    ensures all_children(b) =~= seq![int_child(b, 0)] + int_children(b),
+{
+    assert forall|i: int| 0 <= i < pg_count(b) + 1 implies all_children(b)[i] == (seq![int_child(b, 0)] + int_children(b))[i] by {
+        if i > 0 { assert(int_children(b)[i - 1] == int_child(b, i)); }
+    }
+}
+pub proof fn lemma_int_cells_sz(b: Seq<u8>, i: int)
+    requires internal_wf(b), 0 <= i <= pg_count(b),
+    ensures 0 <= ents_sz(ksv(int_seps(b)).take(i)) <= i * 8207,
+    decreases i
+{
+    if i == 0 { assert(ksv(int_seps(b)).take(0).len() == 0); } else {
+        lemma_int_cells_sz(b, i - 1);
+        lemma_ents_sz_step(ksv(int_seps(b)), i - 1);
+        let off = pg_slot(b, i - 1);
+        assert(ic_ok(b, off));
+        axiom_vdec_bounds(b.skip(off + 8));
+    }
+}
+/// the size of a run depends only on the key lengths
+pub proof fn lemma_same_key_lens(s: Seq<(Seq<u8>, u64)>, t: Seq<(Seq<u8>, u64)>)
+    requires s.len() == t.len(), forall|i: int| 0 <= i < s.len() ==> (#[trigger] s[i]).0.len() == t[i].0.len(),
+    ensures ents_sz(s) == ents_sz(t),
+    decreases s.len()
+{
+    if s.len() > 0 {
+        lemma_same_key_lens(s.drop_last(), t.drop_last());
+        assert(s.last().0.len() == t.last().0.len()) by { assert(s[s.len() - 1].0.len() == t[s.len() - 1].0.len()); }
+    }
+}
+//@trusted v_keys_to_vec: `keys[a..b].to_vec()` clones the keys a..b in order (std; std panics unless a <= b <= len: precondition)
+#[verifier::external_body]
+pub fn v_keys_to_vec(keys: &Vec<Vec<u8>>, a: usize, b: usize) -> (r: Vec<Vec<u8>>)
+    requires a <= b <= keys@.len(),
+    ensures r@.len() == b - a, kseq(r@) == kseq(keys@).subrange(a as int, b as int),
+{ unimplemented!() }
+//@trusted v_children_to_vec: `children[a..b].to_vec()` copies the page ids a..b in order (std; std panics unless a <= b <= len: precondition)
+#[verifier::external_body]
+pub fn v_children_to_vec(children: &Vec<PageId>, a: usize, b: usize) -> (r: Vec<PageId>)
+    requires a <= b <= children@.len(),
+    ensures r@.len() == b - a, cseq(r@) == cseq(children@).subrange(a as int, b as int),
+{ unimplemented!() }
+//@trusted v_zip_cells: `keys.into_iter().zip(children.iter().skip(1).copied()).collect()` pairs key i with child i + 1, for as many pairs as both sides have (zip/skip/copied/collect: std)
+#[verifier::external_body]
+pub fn v_zip_cells(keys: Vec<Vec<u8>>, children: &Vec<PageId>) -> (r: Vec<(Vec<u8>, PageId)>)
+    requires children@.len() >= 1,
+    ensures r@.len() == (if keys@.len() <= children@.len() - 1 { keys@.len() as int } else { children@.len() - 1 }),
+        forall|i: int| 0 <= i < r@.len() ==> (#[trigger] iview(r@)[i]) == (keys@[i]@, children@[i + 1].0),
+{ unimplemented!() }
 
-// C26.tree.insert.no_split / C26.tree.insert.split_leaf — tree-level contract of BTree::insert.  When the leaf
-// reached by the descent has room: exactly one page changes, a leaf, by inserting exactly (key, payload) at the
+impl BTree {
+// C26.tree.insert_into_parent — linking a new right page into the level above.  Empty path: a new root is
+// written whose only separator is `sep_key` between `left_id` and `right_id`, and nothing else changes.
+// Parent with room: exactly the parent changes, by inserting exactly (sep_key, right_id) at the position the
+// descent recorded - the new page becomes the child right of the one that was split.  Full parent: at the
+// recursive call the store satisfies internal_split_ok (in-body obligation): the separators of the two halves
+// around the promoted one are exactly the old separators plus the new one, in order, the children of the two
+// halves are exactly the old children plus the new page right of the split child, both halves fit
+// (rebuild_internal's precondition, from internal_split_point's contract) and no other page changed.
+//@extract nervusdb-storage/src/index/btree.rs BTree::insert_into_parent ret r
+//@attr #[verifier::rlimit(200)]
+//@| requires path_ok(old(pager), old(path)@), sep_key@.len() <= 0x7fff_ffff_ffff_ffff,
+//@|     // the page that was split is where the recorded descent went
+//@|     path_leads_to(old(pager), old(path)@, old(self).root.0, left_id.0),
+//@| ensures r is Ok && old(path)@.len() == 0 ==> new_root_ok(old(pager), final(pager), final(self).root.0, left_id.0, sep_key@, right_id.0),
+//@|     r is Ok && old(path)@.len() > 0 ==> (parent_insert_ok(old(pager), final(pager), old(path)@.last().page.0, old(path)@.last().child_pos as int, sep_key@, right_id.0) && final(self).root == old(self).root && final(path)@ == old(path)@.drop_last())
+//@|         || internal_full(old(pager), old(path)@.last().page.0, sep_key@),
+//@| decreases old(path)@.len(),
+//@prewrite "keys.push(k.to_vec());" => "keys.push(v_slice_to_vec(k));"
+//@preregex "keys\[mid\]\.clone\(\)" => "v_bytes_clone(&keys[mid])"
+//@prewrite "keys[..mid].to_vec()" => "v_keys_to_vec(&keys, 0, mid)"
+//@prewrite "keys[mid + 1..].to_vec()" => "v_keys_to_vec(&keys, mid + 1, keys.len())"
+//@prewrite "children[..mid + 1].to_vec()" => "v_children_to_vec(&children, 0, mid + 1)"
+//@prewrite "children[mid + 1..].to_vec()" => "v_children_to_vec(&children, mid + 1, children.len())"
+//@preregex "(?s)(\w+)\s*\.into_iter\(\)\s*\.zip\((\w+)\.iter\(\)\.skip\(1\)\.copied\(\)\)\s*\.collect\(\)" => "v_zip_cells(\1, &\2)"
+//@proof before 1 "pager.write_page(new_root, &buf)?;"
+//@| assert(int_seps(buf@) =~= seq![sep_key@]);
+//@| lemma_all_children(buf@);
+//@| assert(int_children(buf@) =~= seq![right_id.0]);
+//@| assert(all_children(buf@) =~= seq![left_id.0, right_id.0]);
+//@proof before 1 "=Ok(())"
+//@| lemma_all_children(buf@); lemma_all_children(pg(old(pager), parent_id.0));
+//@| assert(all_children(buf@) =~= all_children(pg(old(pager), parent_id.0)).insert(child_pos + 1, right_id.0));
+//@proof before 1 "let leftmost = page.leftmost_child()?;" raw
+//@| let ghost b0 = pg(old(pager), parent_id.0);
+//@| proof { assert(page.b() == b0); }
+//@loop "for i in 0..page.cell_count()"
+//@| invariant page.b() == b0, internal_wf(b0), keys@.len() == i, children@.len() == i + 1, i <= pg_count(b0),
+//@|     kseq(keys@) == int_seps(b0).take(i as int), cseq(children@) == all_children(b0).take(i + 1),
+//@proof after 1 "children.push(right);"
+//@| assert(kseq(keys@) =~= int_seps(b0).take(i + 1));
+//@| assert(cseq(children@) =~= all_children(b0).take(i + 2));
+//@proof before 1 "keys.insert(child_pos, sep_key);" raw
+//@| proof {
+//@|     assert(int_seps(b0).take(pg_count(b0)) =~= int_seps(b0));
+//@|     assert(all_children(b0).take(pg_count(b0) + 1) =~= all_children(b0));
+//@| }
+//@| let ghost ks1 = int_seps(b0).insert(child_pos as int, sep_key@);
+//@| let ghost cs1 = all_children(b0).insert(child_pos + 1, right_id.0);
+//@proof before 1 "let mid = internal_split_point(&keys)?;"
+//@| assert(kseq(keys@) =~= ks1);
+//@| assert(cseq(children@) =~= cs1);
+//@| lemma_int_cells_sz(b0, pg_count(b0));
+//@| lemma_same_key_lens(kview(keys@), ksv(int_seps(b0)).insert(child_pos as int, (sep_key@, 0u64)));
+//@| assert(ksv(int_seps(b0)).take(pg_count(b0)) =~= ksv(int_seps(b0)));
+//@| lemma_ents_sz_insert(ksv(int_seps(b0)), child_pos as int, (sep_key@, 0u64));
+//@proof before 1 "page.rebuild_internal(left_children[0], &left_cells)?;"
+//@| assert(left_cells@.len() == mid);
+//@| assert forall|i: int| 0 <= i < mid implies (#[trigger] iview(left_cells@)[i]).0 == keys@[i]@ by {
+//@|     assert(kseq(left_keys@)[i] == kseq(keys@).subrange(0, mid as int)[i]);
+//@| }
+//@| lemma_same_key_lens(iview(left_cells@), kview(keys@).take(mid as int));
+//@proof before 1 "Page::new(&mut right_buf).rebuild_internal("
+//@| assert(right_cells@.len() == keys@.len() - mid - 1);
+//@| assert forall|i: int| 0 <= i < right_cells@.len() implies (#[trigger] iview(right_cells@)[i]).0 == keys@[mid + 1 + i]@ by {
+//@|     assert(kseq(right_keys@)[i] == kseq(keys@).subrange(mid + 1, keys@.len() as int)[i]);
+//@| }
+//@| lemma_same_key_lens(iview(right_cells@), kview(keys@).skip(mid + 1));
+//@proof before 1 "self.insert_into_parent(" raw
+//@| proof {
+//@|     let o = old(pager); let pp = parent_id.0; let r2 = right_page_id.0;
+//@|     assert(pg(pager, pp) == buf@ && pg(pager, r2) == right_buf@);
+//@|     assert(int_seps(buf@) =~= ks1.take(mid as int));
+//@|     assert forall|i: int| 0 <= i < right_cells@.len() implies #[trigger] int_seps(right_buf@)[i] == ks1.skip(mid + 1)[i] by {
+//@|         assert(firsts(iview(right_cells@))[i] == iview(right_cells@)[i].0);
+//@|         assert(kseq(keys@)[mid + 1 + i] == keys@[mid + 1 + i]@);
+//@|     }
+//@|     assert(int_seps(right_buf@) =~= ks1.skip(mid + 1));
+//@|     lemma_all_children(buf@); lemma_all_children(right_buf@);
+//@|     assert forall|i: int| 0 <= i < mid implies #[trigger] int_children(buf@)[i] == cseq(left_children@)[i + 1] by {
+//@|         assert(seconds(iview(left_cells@))[i] == iview(left_cells@)[i].1);
+//@|     }
+//@|     assert(all_children(buf@) =~= cseq(left_children@));
+//@|     assert forall|i: int| 0 <= i < right_cells@.len() implies #[trigger] int_children(right_buf@)[i] == cseq(right_children@)[i + 1] by {
+//@|         assert(seconds(iview(right_cells@))[i] == iview(right_cells@)[i].1);
+//@|     }
+//@|     assert(all_children(right_buf@) =~= cseq(right_children@));
+//@|     assert(all_children(buf@) =~= cs1.take(mid + 1));
+//@|     assert(all_children(right_buf@) =~= cs1.skip(mid + 1));
+//@|     assert(promote@ == ks1[mid as int]);
+//@|     lemma_internal_split(o, pager, pp, r2, child_pos as int, sep_key@, right_id.0, promote@, mid as int);
+//@|     assert(internal_split_ok(o, pager, pp, r2, child_pos as int, sep_key@, right_id.0, promote@));
+//@|     // the rest of the recorded descent is untouched by this split, and it went to the page just split
+//@|     lemma_path_frame(o, pager, path@);
+//@|     assert(path_leads_to(pager, path@, self.root.0, pp)) by {
+//@|         let m = path@.len() as int;
+//@|         assert(old(path)@[m] == parent);
+//@|         if m > 0 { assert(old(path)@[m - 1] == path@[m - 1]); assert(old(path)@[0] == path@[0]); }
+//@|     }
+//@| }
+//@end
+
+// C26.tree.insert.no_split / C26.tree.insert.split_leaf — tree-level contract of BTree::insert over any page store
+// whose index pages are well formed and form a tree (some height function decreases along child links).  The
+// descent terminates (decreases: the height of the current page) and records a path that satisfies path_ok.
+// When the leaf reached has room: exactly one page changes, a leaf, by inserting exactly (key, payload) at the
 // lower-bound position of the key in that leaf - in front of all equal keys there, so a lookup that reaches
 // this leaf returns the new payload.  When it is full: at the moment insert_into_parent is called the store
 // satisfies leaf_split_ok (in-body obligation) - the new entry is in front of all equal keys, the two halves
 // hold exactly the old entries plus the new one in order, each half fits its page (rebuild_leaf's
 // precondition, established from leaf_split_point's contract), the sibling chain runs l -> r -> old right
-// sibling, and the separator handed to the parent is the first key of the right half.  What
-// insert_into_parent then does is a stub: not decided.  Termination not proved.
+// sibling, r was a free page, and the separator handed to the parent is the first key of the right half - and
+// insert_into_parent's precondition holds: the recorded path is intact and leads to the leaf that was split.
 //@extract nervusdb-storage/src/index/btree.rs BTree::insert ret r
-//@attr #[verifier::exec_allows_no_decreases_clause]
+//@attr #[verifier::rlimit(200)]
 //@| requires tree_pages_ok(old(pager)), key@.len() <= 0x7fff_ffff_ffff_ffff,
-//@| ensures r is Ok ==> parent_updated(final(pager)) || exists|l: u64, i: int| #[trigger] inserted_at(old(pager), final(pager), l, i, key@, payload),
-//@|     r is Err ==> parent_updated(final(pager)) || at_most_two_changed(old(pager), final(pager)),
+//@|     // the pages reachable from the root form a tree (no page is its own descendant)
+//@|     exists|rank: spec_fn(u64) -> nat| ranked(old(pager), rank),
+//@| ensures r is Ok ==> (exists|l: u64| #[trigger] leaf_full(old(pager), l, key@))
+//@|         || (final(self).root == old(self).root && exists|l: u64, i: int, h: nat| #[trigger] inserted_at(old(pager), final(pager), l, i, key@, payload) && #[trigger] reaches(old(pager), old(self).root.0, key@, l, h)),
+//@|     r is Err ==> (exists|l: u64| #[trigger] leaf_full(old(pager), l, key@)) || at_most_one_changed(old(pager), final(pager)),
 //@preregex "(?s)\(0\.\.page\.cell_count\(\)\)\s*\.map\(\|i\| \{.*?\}\)\s*\.collect\(\);" => "v_collect_leaf_entries(&page);"
 //@prewrite "entries.partition_point(|(k, _)| k.as_slice() < key)" => "v_partition_point_lt(&entries, key)"
 //@prewrite "(key.to_vec(), payload)" => "(v_slice_to_vec(key), payload)"
 //@prewrite "entries[..mid].to_vec()" => "v_entries_to_vec(&entries, 0, mid)"
 //@prewrite "entries[mid..].to_vec()" => "v_entries_to_vec(&entries, mid, entries.len())"
 //@preregex "(\w+)\[0\]\.0\.clone\(\)" => "v_bytes_clone(&\1[0].0)"
+//@proof before 1 "let mut cur = self.root;" raw
+//@| let ghost rank = choose|rank: spec_fn(u64) -> nat| ranked(old(pager), rank);
+//@| let ghost mut depth: nat = 0;
 //@loop 1
 //@| invariant tree_pages_ok(old(pager)), forall|o: u64| #[trigger] pg(pager, o) == pg(old(pager), o), *pager == *old(pager),
-//@|     key@.len() <= 0x7fff_ffff_ffff_ffff,
+//@|     key@.len() <= 0x7fff_ffff_ffff_ffff, ranked(old(pager), rank), path_ok(old(pager), path@),
+//@|     forall|k: int| 0 <= k < path@.len() ==> rank((#[trigger] path@[k]).page.0) > rank(cur.0),
+//@|     path_leads_to(old(pager), path@, self.root.0, cur.0), *self == *old(self),
+//@|     forall|l: u64, h: nat| reaches(old(pager), cur.0, key@, l, h) ==> #[trigger] reaches(old(pager), self.root.0, key@, l, h + depth),
+//@| decreases rank(cur.0),
 //@proof before 1 "=return Ok(());"
 //@| assert(inserted_at(old(pager), pager, cur.0, idx as int, key@, payload));
+//@| assert(reaches(old(pager), cur.0, key@, cur.0, 0nat));
+//@| assert(reaches(old(pager), old(self).root.0, key@, cur.0, 0nat + depth));
+//@proof after 1 "let (child, child_pos) = page.internal_child_for_key(key)?;"
+//@| assert(child.0 == int_child(pg(old(pager), cur.0), child_pos as int));
+//@| assert(rank(child.0) < rank(cur.0));
+//@proof before 1 "path.push(PathEntry {" raw
+//@| proof {
+//@|     assert(is_lb(int_seps(pg(old(pager), cur.0)), key@, child_pos as int));
+//@|     assert forall|l: u64, h: nat| reaches(old(pager), child.0, key@, l, h) implies #[trigger] reaches(old(pager), self.root.0, key@, l, h + (depth + 1)) by {
+//@|         lemma_reaches_step(old(pager), cur.0, key@, child_pos as int, l, h);
+//@|         assert(reaches(old(pager), self.root.0, key@, l, (h + 1) + depth));
+//@|     }
+//@|     depth = depth + 1;
+//@| }
 //@proof before 1 "let pos = " raw
 //@| let ghost cells0 = leaf_cells(pg(old(pager), cur.0));
-//@| proof { assert(page.b() == pg(old(pager), cur.0)); assert(eview(entries@) == cells0); }
+//@| proof { assert(page.b() == pg(old(pager), cur.0)); assert(eview(entries@) == cells0); assert(leaf_full(old(pager), cur.0, key@)); }
 //@proof after 1 "entries.insert(" raw
 //@| let ghost cells1 = cells0.insert(pos as int, (key@, payload));
 //@| proof {
@@ -498,21 +868,102 @@ impl BTree {
 //@proof before 1 "self.insert_into_parent(" raw
 //@| proof {
 //@|     let o = old(pager); let l = cur.0; let rr = right_id.0;
-//@|     if rr != l {
-//@|         assert(pg(pager, l) == buf@ && pg(pager, rr) == right_buf@);
-//@|         assert(leaf_cells(pg(pager, l)) + leaf_cells(pg(pager, rr)) =~= cells1);
-//@|         assert(keys_sorted(leaf_cells(pg(pager, l)))) by {
-//@|             assert forall|a: int, b: int| 0 <= a < b < mid implies lex_le(#[trigger] cells1.take(mid as int)[a].0, #[trigger] cells1.take(mid as int)[b].0) by { assert(lex_le(cells1[a].0, cells1[b].0)); }
-//@|         }
-//@|         assert(keys_sorted(leaf_cells(pg(pager, rr)))) by {
-//@|             assert forall|a: int, b: int| 0 <= a < b < cells1.len() - mid implies lex_le(#[trigger] cells1.skip(mid as int)[a].0, #[trigger] cells1.skip(mid as int)[b].0) by { assert(lex_le(cells1[mid + a].0, cells1[mid + b].0)); }
-//@|         }
-//@|     }
+//@|     assert(pg(pager, l) == buf@ && pg(pager, rr) == right_buf@);
+//@|     assert(sep_key@ == cells1[mid as int].0);
+//@|     lemma_leaf_split(o, pager, l, rr, pos as int, key@, payload, sep_key@, mid as int);
 //@|     assert(leaf_split_ok(o, pager, l, rr, pos as int, key@, payload, sep_key@));
+//@|     // the recorded descent is untouched by the leaf split: its pages are internal, allocated pages other than l
+//@|     assert forall|k: int| 0 <= k < path@.len() implies pg(pager, (#[trigger] path@[k]).page.0) == pg(o, path@[k].page.0) && live(pager, path@[k].page.0) by {
+//@|         assert(pg(o, path@[k].page.0)[4] == 1 && pg(o, l)[4] == 0);
+//@|     }
+//@|     lemma_path_frame(o, pager, path@);
+//@|     assert(path_leads_to(pager, path@, self.root.0, l));
 //@| }
 //@end
 }
 
+/// C26.tree.insert.keeps_page_invariant — an insert that did not split leaves every index page well formed and in
+/// key order, so the store satisfies the precondition of the next operation
+pub proof fn lemma_insert_keeps_pages_ok(o: &Pager, n: &Pager, l: u64, i: int, key: Seq<u8>, payload: u64)
+    requires tree_pages_ok(o), inserted_at(o, n, l, i, key, payload),
+    ensures tree_pages_ok(n),
+{
+    lemma_insert_at_lower_bound(leaf_cells(pg(o, l)), i, key, payload);
+    assert forall|id: u64| pg_kind_ok(#[trigger] pg(n, id)) implies
+        (pg(n, id)[4] == 0 ==> leaf_wf(pg(n, id)) && keys_sorted(leaf_cells(pg(n, id)))
+            && (from_le64(pg(n, id).subrange(16, 24)) != 0 ==> pg_kind_ok(pg(n, from_le64(pg(n, id).subrange(16, 24)))) && pg(n, from_le64(pg(n, id).subrange(16, 24)))[4] == 0))
+        && (pg(n, id)[4] == 1 ==> internal_wf(pg(n, id)) && seps_sorted(int_seps(pg(n, id)))) by {
+        let sid = from_le64(pg(n, id).subrange(16, 24));
+        if id != l { assert(pg(n, id) == pg(o, id)); }
+        assert(pg_kind_ok(pg(o, id)));
+        if sid != l { assert(pg(n, sid) == pg(o, sid)); }
+    }
+}
+
+/// the height function of the tree is still one after an insert that did not split (no internal page changed)
+pub proof fn lemma_insert_keeps_ranked(o: &Pager, n: &Pager, rank: spec_fn(u64) -> nat, l: u64, i: int, key: Seq<u8>, payload: u64)
+    requires ranked(o, rank), inserted_at(o, n, l, i, key, payload),
+    ensures ranked(n, rank),
+{
+    assert forall|a: u64, c: int| pg_kind_ok(pg(n, a)) && pg(n, a)[4] == 1 && 0 <= c <= pg_count(pg(n, a)) implies rank(#[trigger] int_child(pg(n, a), c)) < rank(a) by {
+        assert(a != l);
+        assert(pg(n, a) == pg(o, a));
+        assert(rank(int_child(pg(o, a), c)) < rank(a));
+    }
+}
+/// C26.tree.delete.keeps_page_invariant — a delete leaves every index page well formed and in key order
+pub proof fn lemma_delete_keeps_pages_ok(o: &Pager, n: &Pager, l: u64, i: int, key: Seq<u8>, payload: u64)
+    requires tree_pages_ok(o), deleted_at(o, n, l, i, key, payload), pg(n, l).subrange(16, 24) == pg(o, l).subrange(16, 24), pg_kind_ok(pg(n, l)) && pg(n, l)[4] == 0,
+    ensures tree_pages_ok(n),
+{
+    lemma_remove_keeps_sorted(leaf_cells(pg(o, l)), i);
+    assert forall|id: u64| pg_kind_ok(#[trigger] pg(n, id)) implies
+        (pg(n, id)[4] == 0 ==> leaf_wf(pg(n, id)) && keys_sorted(leaf_cells(pg(n, id)))
+            && (from_le64(pg(n, id).subrange(16, 24)) != 0 ==> pg_kind_ok(pg(n, from_le64(pg(n, id).subrange(16, 24)))) && pg(n, from_le64(pg(n, id).subrange(16, 24)))[4] == 0))
+        && (pg(n, id)[4] == 1 ==> internal_wf(pg(n, id)) && seps_sorted(int_seps(pg(n, id)))) by {
+        let sid = from_le64(pg(n, id).subrange(16, 24));
+        if id != l { assert(pg(n, id) == pg(o, id)); }
+        assert(pg_kind_ok(pg(o, id)));
+        if sid != l { assert(pg(n, sid) == pg(o, sid)); }
+    }
+}
+
+/// C26.tree.lookup_after_insert — the property's second sentence for an insert that did not split, as a lemma over
+/// the contracts of BTree::insert and BTree::cursor_lower_bound: on the store after the insert, the cursor that a
+/// lookup of the same key starts from stands on the entry just inserted - the most recently inserted entry for the
+/// key - whatever else the tree holds.  (`o`, `n`: store before / after; the hypotheses are the two postconditions.)
+pub proof fn lemma_lookup_after_insert(o: &Pager, n: &Pager, root: u64, key: Seq<u8>, payload: u64, l: u64, i: int, h: nat, c_leaf: u64, c_slot: int, l0: u64, h0: nat)
+    requires
+        // postcondition of insert (no-split case)
+        inserted_at(o, n, l, i, key, payload), reaches(o, root, key, l, h), pg_kind_ok(pg(o, l)) && pg(o, l)[4] == 0, pg_kind_ok(pg(n, l)) && pg(n, l)[4] == 0,
+        keys_sorted(leaf_cells(pg(o, l))),
+        // postcondition of cursor_lower_bound on the new store
+        reaches(n, root, key, l0, h0), leaf_wf(pg(n, l0)),
+        lb_pos(leaf_keys(pg(n, l0)), key) < pg_count(pg(n, l0)) ==> c_leaf == l0 && c_slot == lb_pos(leaf_keys(pg(n, l0)), key),
+    ensures c_leaf == l, c_slot == i, 0 <= i < pg_count(pg(n, l)), leaf_cells(pg(n, l))[i] == (key, payload),
+{
+    lemma_reaches_frame(o, n, root, key, l, h, l);
+    lemma_reaches_unique(n, root, key, l, h, l0, h0);
+    let cells0 = leaf_cells(pg(o, l));
+    lemma_insert_at_lower_bound(cells0, i, key, payload);
+    let ks = leaf_keys(pg(n, l));
+    let c1 = leaf_cells(pg(n, l));
+    assert(c1 == cells0.insert(i, (key, payload)));
+    assert(ks.len() == c1.len() && c1.len() == cells0.len() + 1);
+    assert(is_lb(ks, key, i)) by {
+        assert forall|j: int| 0 <= j < i implies lex_lt(#[trigger] ks[j], key) by { assert(ks[j] == c1[j].0); assert(lex_lt(cells0.insert(i, (key, payload))[j].0, key)); }
+        assert forall|j: int| i <= j < ks.len() implies lex_le(key, #[trigger] ks[j]) by { assert(ks[j] == c1[j].0); assert(lex_le(key, cells0.insert(i, (key, payload))[j].0)); }
+    }
+    lemma_lb_unique(ks, key, i, lb_pos(ks, key));
+}
+
+//@canary|pub proof fn canary_reaches(p: &Pager, root: u64, k: Seq<u8>, l: u64) requires tree_pages_ok(p), reaches(p, root, k, l, 2), root != l, pg_kind_ok(pg(p, root)), pg(p, root)[4] == 1, pg_count(pg(p, root)) == 3 ensures false {}
+//@canary|pub proof fn canary_lookup_hyp(o: &Pager, n: &Pager, root: u64, k: Seq<u8>, l: u64) requires tree_pages_ok(o), inserted_at(o, n, l, 1, k, 5), reaches(o, root, k, l, 1), root != l, pg_count(pg(o, l)) == 2 ensures false {}
+//@canary|pub proof fn canary_ranked(p: &Pager, rank: spec_fn(u64) -> nat, a: u64) requires tree_pages_ok(p), ranked(p, rank), pg_kind_ok(pg(p, a)), pg(p, a)[4] == 1, pg_count(pg(p, a)) == 2, int_child(pg(p, a), 1) != int_child(pg(p, a), 2) ensures false {}
+//@canary|pub proof fn canary_path_ok(p: &Pager, path: Seq<PathEntry>) requires path_ok(p, path), path.len() == 2, path[0].child_pos == 1, path[1].child_pos == 0 ensures false {}
+//@canary|pub proof fn canary_split_point_pre(e: Seq<(Seq<u8>, u64)>) requires e.len() == 3, ents_sz(e) <= usize::MAX, cut_fits(e, 1), !cut_fits(e, 2) ensures false {}
+//@canary|pub proof fn canary_leaf_split_ok(o: &Pager, n: &Pager, l: u64, r: u64, k: Seq<u8>, s: Seq<u8>) requires leaf_split_ok(o, n, l, r, 1, k, 7, s), pg_count(pg(o, l)) == 3, leaf_cells(pg(n, l)).len() == 2 ensures false {}
+//@canary|pub proof fn canary_internal_split_ok(o: &Pager, n: &Pager, p: u64, r2: u64, s: Seq<u8>, pr: Seq<u8>) requires internal_split_ok(o, n, p, r2, 1, s, 9, pr), pg_count(pg(o, p)) == 4, pg_count(pg(n, p)) == 2 ensures false {}
 //@canary|pub proof fn canary_leaf_wf(b: Seq<u8>) requires leaf_wf(b), pg_count(b) == 3, keys_sorted(leaf_cells(b)), leaf_cells(b)[0].0 == leaf_cells(b)[1].0 ensures false {}
 //@canary|pub proof fn canary_internal_wf(b: Seq<u8>) requires internal_wf(b), pg_count(b) == 2, seps_sorted(int_seps(b)) ensures false {}
 //@canary|pub proof fn canary_insert_fits(b: Seq<u8>, k: Seq<u8>) requires leaf_wf(b), pg_count(b) == 1, k.len() == 300, 24 + 2 * pg_count(b) + 2 + vlen(k.len() as u32) + k.len() + 8 <= pg_begin(b) ensures false {}
